@@ -7,6 +7,7 @@ package main
 // they show that the rules are not vacuous. Two sources:
 //   /verif/controls/<prop>/*.json   hand-written snippet edits {file, old, new, rule}
 //   /verif/seeded/<prop>-*/patch.diff  independently written breaking changes
+//   /verif/redteam/<prop>-*/patch.diff white-box findings (written against the analyser's source)
 
 import (
 	"encoding/json"
@@ -128,6 +129,20 @@ func runControlsImpl(w *World, verifDir, prop string, extra map[string]interface
 	for _, pf := range seeded {
 		pf := pf
 		jobs = append(jobs, job{name: filepath.Base(filepath.Dir(pf)), source: "seeded", apply: func(dir string) (bool, string) {
+			cmd := exec.Command("patch", "-p1", "-s", "-i", pf)
+			cmd.Dir = dir
+			if out, err := cmd.CombinedOutput(); err != nil {
+				return false, "patch does not apply: " + strings.TrimSpace(string(out))
+			}
+			return true, ""
+		}})
+	}
+	// white-box red-team findings of this property (changes written against the analyser's source)
+	redteam, _ := filepath.Glob(filepath.Join(verifDir, "redteam", prop+"-*", "patch.diff"))
+	sort.Strings(redteam)
+	for _, pf := range redteam {
+		pf := pf
+		jobs = append(jobs, job{name: filepath.Base(filepath.Dir(pf)), source: "redteam", apply: func(dir string) (bool, string) {
 			cmd := exec.Command("patch", "-p1", "-s", "-i", pf)
 			cmd.Dir = dir
 			if out, err := cmd.CombinedOutput(); err != nil {
